@@ -6,7 +6,7 @@
    and under C: / C:\), in the same order, pointing to the same heap positions; the
    nodes have the same children, data, link counts, ids and the same type bit. *)
 From Avfs Require Import Base PathModel PathSpec PathCleanProofs PathProofs MemFS MemFile World WorldWin IsoView
-  OrefaFS OrefaWorld OrefaWin PathEquiv IsoIter IsoSearch IsoCalls IsoRun.
+  OrefaFS OrefaWorld OrefaLemmas OrefaWin PathEquiv IsoIter IsoSearch IsoCalls IsoRun.
 Set Implicit Arguments.
 
 Section OPath.
@@ -660,7 +660,7 @@ Section OCalls.
       revert c Eg. induction OH as [|a b hw hl Hab H IH]; intros c Eg; [destruct c; discriminate|].
       destruct c; cbn [oupd].
       + cbn in Eg. injection Eg as ->. constructor; [|exact H]. destruct Hab as (E1 & E2 & E3 & E4 & E5).
-        unfold onrel, on_with_meta, on_dir in *. cbn. auto.
+        unfold onrel, on_with_meta, on_dir in *. cbn [on_ch on_data on_nlink on_id on_meta]. rewrite o_chown_meta_dir. auto.
       + constructor; [exact Hab|]. apply IH. exact Eg.
     - apply names_upd; [exact ON|]. exact (@names_get (o_heap sl) c cn ON (@ofind_get sl _ c cn Efl)).
   Qed.
